@@ -103,7 +103,7 @@ type delivery struct {
 func deliver(r *core.Run, a, f *Party, base *Issued) delivery {
 	d := delivery{base: base}
 	cur := a.Current()
-	switch k := r.Intn(14, "channel-op"); k {
+	switch k := r.Intn(15, "channel-op"); k {
 	case 0, 1:
 		d.bytes, d.op, d.genuine = base.Bytes, "genuine", true
 	case 2:
@@ -174,6 +174,17 @@ func deliver(r *core.Run, a, f *Party, base *Issued) delivery {
 		payload, _ := proto.Marshal(g)
 		d.bytes, _ = proto.Marshal(&epb.VMLaunchEndorsement{SerializedUefiGolden: payload, Signature: base.Proto.Signature})
 		d.op = "payload-edit-keep-signature"
+	case 14:
+		// the certificate field holds the genuine signer certificate FOLLOWED by a certificate of
+		// the forger's own (any issuer), and the payload is signed by the forger's key: one
+		// certificate is expected there, and it must be the one the signature is checked with
+		ak := AttackerKey(a, r.Intn(3, "bundle-key"))
+		extra := ForgeCert(ak, nil, nil, base.Cert.NotBefore, base.Cert.NotAfter, 81)
+		g := proto.Clone(base.Golden).(*epb.VMGoldenMeasurement)
+		g.Cert = append(append([]byte(nil), base.Cert.Raw...), extra.Raw...)
+		payload, _ := proto.Marshal(g)
+		d.bytes, _ = proto.Marshal(&epb.VMLaunchEndorsement{SerializedUefiGolden: payload, Signature: Sign(ak, payload, 0)})
+		d.op = "resign:genuine-cert+forger-cert-bundle"
 	case 13:
 		// the genuine signature in another encoding of the same integer: zero bytes prepended (or a
 		// leading zero byte dropped). RSA signatures have exactly the modulus' length; the bytes
@@ -293,6 +304,12 @@ func runC01(r *core.Run) {
 		default:
 			skew := []time.Duration{-6 * 365 * 24 * time.Hour, -24 * time.Hour, time.Hour, 6 * 365 * 24 * time.Hour}[r.Intn(4, "skew")]
 			t, timeClass = a.A.Now.Add(skew), "skewed-now"
+		}
+		// the same instant, told in another time zone: verification is about instants
+		if r.Chance(25, "time-in-other-zone?") {
+			off := []int{-11, -8, -3, 2, 5, 9, 13}[r.Intn(7, "zone")]
+			t = t.In(time.FixedZone(fmt.Sprintf("UTC%+d", off), off*3600))
+			timeClass += fmt.Sprintf("@UTC%+d", off)
 		}
 		entry := r.Intn(16, "entry")
 		if entry >= 9 && entry <= 11 && !(wantTDX) { // TDX entries need a TDX world
